@@ -165,6 +165,10 @@ class GoExec:
         if cnt:
             n = '%s~%d' % (n, cnt)
         body = st.hyps() + list(extra)
+        meta = dict(meta or {})
+        rp = getattr(self.frame, 'replayer', None)
+        if rp is not None and 'replayer' not in meta:
+            meta['replayer'] = lambda ob, model, rp=rp: rp.replay(ob)
         self.obls.append(Obligation(n, self.relevant_axioms(body + [goal]) + body, goal, kind, func=fname, src=src, meta=meta))
 
     def base_hyps(self):
